@@ -18,7 +18,11 @@ Inductive sres :=
       handshake message, before it registers the peer); Connect has returned; the streams are
       opened and given time to reach the wrapper; then the gate is released
    1  the streams are opened after the responder finished its side (registered or refused)
-   2  free running: GetAddress sleeps for a delay, the initiator opens streams immediately *)
+   2  free running: GetAddress sleeps for a delay, the initiator opens streams immediately
+   3  mutual dial: B = (i_addr, ...) dials A = (r_addr, ...); B is held between the last
+      message of its outbound handshake and its addPeer; A's handler registers B; A's Connect(B)
+      returns through the shortcut ([connect_ok], [ret_*] describe THIS connect); A opens the
+      streams, which B answers ([outcomes]: the identity B's handler saw); then B goes on *)
 Record case := {
   id : N;
   klass : N;
@@ -130,8 +134,29 @@ Definition early_agrees (c : case) : bool :=
     Bool.eqb (match registered w with Some _ => true | None => false end) (reg_at_gate c)
   else (early c =? 0) && negb (reg_at_gate c).
 
+(* class 3: the mutual-dial world *)
+Definition m_ret_agrees (m : mworld) (c : case) : bool :=
+  match a_ret m with
+  | Some (a, t) => connect_ok c && (a =? addrN (ret_addr c)) && (t =? ret_type c)
+  | None => negb (connect_ok c)
+  end.
+Definition m_explains (c : case) (sched : list mwho) : bool :=
+  let m := mrun ob_deployed (cfg_of c) sched in
+  m_ret_agrees m c && all2 sres_agrees (bw m) (outcomes c) &&
+  (N.of_nat (ga_calls (base m)) * ninit c =? ga c).
+Definition m_candidates (c : case) : list (list mwho) :=
+  let n := N.to_nat (nstreams c) in
+  [msched_first_lookup_before n; msched_all_before n ++ m_rests n].
+Definition m_early_agrees (c : case) : bool :=
+  let n := N.to_nat (nstreams c) in
+  existsb (fun sched => N.of_nat (length (filter finished (bw (mrun ob_deployed (cfg_of c) sched)))) =? early c)
+          [msched_held n; msched_held n ++ m_rests n].
+
 Definition agrees (c : case) : bool :=
-  existsb (explains c) (candidates c) && early_agrees c && prior_agrees c.
+  if klass c =? 3 then
+    existsb (m_explains c) (m_candidates c) && m_early_agrees c && negb (reg_at_gate c) &&
+    (prior c =? 0) && negb (prior_ok c)
+  else existsb (explains c) (candidates c) && early_agrees c && prior_agrees c.
 
 Definition mismatches (cs : list case) : list N :=
   map id (filter (fun c => negb (agrees c)) cs).
@@ -139,15 +164,23 @@ Definition mismatches (cs : list case) : list N :=
 (* The property on the implementation's own observation: once Connect reported success (and
    the responder is not misconfigured against its own identity) every stream the initiator
    opened is handled, with the initiator's identity. *)
+(* class 3: the streams are A's, answered by B: the identity to be seen is A's *)
+Definition expected_addr (c : case) : bytes := if klass c =? 3 then r_addr c else i_addr c.
+Definition expected_type (c : case) : N := if klass c =? 3 then r_type c else i_type c.
 Definition stream_violation (c : case) (o : sres) : option string :=
   match o with
   | SHandled a t =>
-      if bytes_eqb a (i_addr c) && (t =? i_type c) then None else Some "wrong-identity"%string
-  | SRefused => Some "reset-after-connect"%string
-  | SPending => Some "reset-after-connect"%string
+      if bytes_eqb a (expected_addr c) && (t =? expected_type c) then None
+      else Some "wrong-identity"%string
+  | SRefused =>
+      if klass c =? 3 then Some "reset-after-connect:mutual-dial"%string
+      else Some "reset-after-connect"%string
+  | SPending =>                      (* neither handled nor refused within the case's bound *)
+      if klass c =? 3 then Some "never-handled:mutual-dial"%string
+      else Some "never-handled"%string
   end.
 
-Definition in_claim (c : case) : bool := connect_ok c && r_ks_ok c.
+Definition in_claim (c : case) : bool := connect_ok c && (r_ks_ok c || (klass c =? 3)).
 
 Definition violation (c : case) : option string :=
   if in_claim c then
